@@ -108,3 +108,16 @@ package protocol
 //@   ensures err == nil && (b[0] == 10 || b[0] == 11) ==> das.lowEntropyMode == b[1] && das.lowEntropyMask == be32(b, 25) && das.extractedPayloadLen == be16(b, 29) && das.lowEntropyMaskRotation == b[31]
 //@   ensures err == nil && !(b[0] == 10 || b[0] == 11) ==> das.lowEntropyMode == 0 && das.lowEntropyMask == 0 && das.extractedPayloadLen == 0 && das.lowEntropyMaskRotation == 0
 //@   ensures err != nil ==> das.protocol == old(das.protocol) && das.sessionID == old(das.sessionID) && das.seq == old(das.seq) && das.payloadLen == old(das.payloadLen)
+//@
+//@ func lowBits(n int) (r uint64)
+//@   property C17
+//@   requires n >= 0
+//@   ensures r == lowBitsS(n)
+//@   ensures n < 64 ==> r + 1 == uint64(1) << n
+//@   ensures n >= 64 ==> r == 18446744073709551615
+//@
+//@ func rotateLowEntropyMask(initialMask uint64, rotation appctlpb.LowEntropyMaskRotation, chunkIndex int) (r uint64)
+//@   property C17 C09 C16
+//@   requires chunkIndex >= 0 && chunkIndex <= 1073741824
+//@   requires (0 <= rotation && rotation <= 15) || (16 <= rotation && rotation <= 240 && rotation % 16 == 0)
+//@   ensures r == rotMaskS(initialMask, int32(rotation), chunkIndex)
